@@ -1728,6 +1728,31 @@ impl Property for C14 {
         }
         Ok(())
     }
+    /// libFuzzer input: pointer kind, flags (strip / root wrapper / options), then the raw graph
+    /// description that `assemble` turns into a case: strong edges (5 bytes each), weak edges,
+    /// shared leaves
+    fn fuzz_decode(data: &[u8]) -> Option<(&'static str, Case, bool)> {
+        let mut b = engine::Bytes::new(data);
+        let kind = b.pick(&[Kind::RcDag, Kind::ArcDag, Kind::RcRec, Kind::ArcRec]);
+        let flags = b.u8();
+        let strip = flags & 3 == 0;
+        let root_wrapped = flags & 0x1c == 0;
+        let opts = if flags & 0x60 == 0 { Some(c14_opts(b.u16() as u32)) } else { None };
+        let nw = b.below(9);
+        let weak = (0..nw).map(|_| (b.u16(), b.u16(), b.below(32) == 0, b.below(5) < 3, b.below(20) as u8)).collect();
+        let nl = b.below(3);
+        let leaves = (0..nl).map(|_| b.below(8) as u8).collect();
+        let nlo = b.below(6);
+        let leaf_of = (0..nlo).map(|_| (b.u16(), b.u16())).collect();
+        let ns = 1 + b.below(25);
+        let strong = (0..ns).map(|_| (b.u16(), b.u16(), b.below(5) < 2, b.below(3) as u8, b.below(4) as u32)).collect();
+        let c = assemble(kind, 10, RawGraph { strong, weak, leaves, leaf_of, root_wrapped, opts, strip });
+        let nt = match simulate(&c) {
+            Ok(m) => nontrivial_m(&m),
+            Err(_) => false,
+        };
+        Some(("fuzz-graphs", c, nt))
+    }
     fn generate(ctx: &mut Ctx<Self>) {
         let thorough = ctx.tier == Tier::Thorough;
         let stats: std::rc::Rc<RefCell<BTreeMap<String, u64>>> = std::rc::Rc::new(RefCell::new(BTreeMap::new()));
